@@ -104,8 +104,18 @@ def run(tier, replay=None):
                            os.path.join(out, "evq_%s.ndjson" % variant), "event queue histories")
         n += run_generator(v, variant, hh, ["gen", str(vlib.seed()), str(200 * scale), "80"],
                            os.path.join(out, "hh_%s.ndjson" % variant), "hashheap histories")
+        mp = vlib.cc_harness(PID, variant, "mp_replay")
+        n += run_generator(v, variant, mp, ["gen", str(vlib.seed()), str(11 * scale)],
+                           os.path.join(out, "mp_%s.ndjson" % variant), "memory pool histories")
+        kr = vlib.cc_harness(PID, variant, "kernel_replay")
+        for pf in (["mix", "contend", "end", "wait"] if tier == "quick" else ["mix", "contend", "end", "wait", "res", "pool", "buf", "queue", "cond", "rec"]):
+            rc, o = vlib.run(["python3", os.path.join(vlib.ROOT, "tools", "kgen.py"), str(vlib.seed()), str(150 * scale), pf], timeout=600)
+            pp = os.path.join(out, "kprog_%s.txt" % pf)
+            open(pp, "w").write(o)
+            n += run_generator(v, variant, kr, ["run", pp], os.path.join(out, "k_%s_%s.ndjson" % (pf, variant)),
+                               "kernel programs " + pf, start='{"e":"Prog"')
     v.cov["distinct_nontrivial"] = n
     v.cov["rule"] = ("every generated history/program is run on the release-flag build and on the ASan/UBSan build; a case is one "
                      "history (all generated histories are distinct by seed and index; counted: histories that started)")
-    v.sample("event queue histories (evq_replay gen), hashheap histories (hh_replay gen) on rel and san builds")
+    v.sample("event queue histories (evq_replay), hashheap histories (hh_replay), memory pool histories (mp_replay), kernel programs (kernel_replay) on rel and san builds")
     return v.finish()
